@@ -209,6 +209,10 @@ func checkC09(c *Ctx) {
 	c.guard(p, "C09.guard", "ristretto255 element decodes only through go-ristretto (canonical, in group)", p.Func("group", "ristrettoElement", "UnmarshalBinary"),
 		GuardSpec{Assumes: []Assume{calleeAssume(latFalse, -1, "(*github.com/bwesterb/go-ristretto.Point).SetBytes")}})
 	c.lenReject(p, "C09.len", p.Func("group", "ristrettoElement", "UnmarshalBinary"), "data", true)
+	// ristretto255 scalars: go-ristretto's decoder masks the top bits and reduces; only a comparison of the
+	// re-encoding (or of the value with the order) makes the encoding unique
+	c.guard(p, "C09.guard", "a ristretto255 scalar encoding that is not the canonical one is rejected", p.Func("group", "ristrettoScalar", "UnmarshalBinary"),
+		GuardSpec{Assumes: []Assume{calleeAssume(latFalse, -1, "bytes.Equal", "crypto/subtle.ConstantTimeCompare", "(*math/big.Int).Cmp")}})
 	c.guard(p, "C09.guard", "OPRF public key decodes only through the group decoder", p.Func("oprf", "PublicKey", "UnmarshalBinary"),
 		GuardSpec{Assumes: []Assume{calleeAssume(latNonNil, -1, "invoke (encoding.BinaryUnmarshaler).UnmarshalBinary")}})
 
